@@ -226,7 +226,12 @@ def run(case, res):
 
     def behaves():
         nl2, _live = transforms.block_netlist(blk)
-        rows, n, _ = transforms.ref_trace(nl2, {}, tape[:n_ok], outs)
+        try:
+            rows, n, _ = transforms.ref_trace(nl2, {}, tape[:n_ok], outs)
+        except HarnessError as e:
+            if 'combinational loop' in str(e) or 'undriven' in str(e) or 'two drivers' in str(e):
+                return (0, 'block can no longer be evaluated: %s' % e, None, None)
+            raise
         return transforms.compare_rows(exp_rows, rows, outs, min(n, n_ok))
 
     wf = list(case['writer_faults'])
@@ -283,6 +288,50 @@ def run(case, res):
             if d:
                 return Violation('writer_fault', 'behaviour_changed_by_failed_export',
                                  {'call': name, 'k': k}, ['call:' + name])
+    # ---- export, rename, export: the text must not depend on what was exported before -------
+    plainw = sorted((w['n'] for w in script['wires'] if w['k'] in 'WR'), key=str)
+    if plainw and not any(n == 'output_to_firrtl' and not True for n, _f in calls):
+        import re as _re
+        victim = plainw[case['writer_faults'][1] % len(plainw)]
+        newname = 'a0_renamed' if case['writer_faults'][2] % 2 else 'zz_renamed'
+        if newname not in [w['n'] for w in script['wires']]:
+            script2 = json.loads(json.dumps(script).replace(json.dumps(victim), json.dumps(newname))) \
+                if False else None
+            # rename by structure, not by text
+            script2 = copy.deepcopy(script)
+            for w in script2['wires']:
+                if w['n'] == victim:
+                    w['n'] = newname
+            for n in script2['nets']:
+                n['a'] = [newname if x == victim else x for x in n['a']]
+                n['d'] = [newname if x == victim else x for x in n['d']]
+            # history A: a block that was exported (above), then one wire renamed, exported again
+            common.install_hash_seam(sched.get('hash_seed'))
+            common.reset_world()
+            ba = build(script, perm_seed=sched.get('perm_seed'))
+            pyrtl.set_working_block(ba.block, no_sanity_check=True)
+            try:
+                t0 = io.StringIO()
+                pyrtl.output_to_verilog(t0, add_reset=case['add_reset'], block=ba.block)
+                ba.wires[victim].name = newname
+                ta = io.StringIO()
+                pyrtl.output_to_verilog(ta, add_reset=case['add_reset'], block=ba.block)
+                # history B: the renamed design built and exported in one go
+                common.install_hash_seam(sched.get('hash_seed'))
+                common.reset_world()
+                bb2 = build(script2, perm_seed=sched.get('perm_seed'))
+                pyrtl.set_working_block(bb2.block, no_sanity_check=True)
+                tb2 = io.StringIO()
+                pyrtl.output_to_verilog(tb2, add_reset=case['add_reset'], block=bb2.block)
+            except pyrtl.PyrtlError:
+                res.probes.hit('rename_history_refused')
+            else:
+                res.faults.hit('export_rename_export')
+                if ta.getvalue() != tb2.getvalue():
+                    return Violation('determinism', 'text_depends_on_earlier_exports',
+                                     {'renamed': [victim, newname],
+                                      'diff': first_diff(tb2.getvalue(), ta.getvalue())},
+                                     ['history:export_rename_export'] + ntags)
     # ---- (b) passes under the K schedules ---------------------------------------------------
     if case.get('passes') and _small_enough(script):
         for k, sc in enumerate(case['scheds'][:3]):
